@@ -22,7 +22,7 @@
 From Coq Require Import List Bool Arith NArith ZArith String Ascii.
 From Eino Require Import Base.Util Base.Universe Model.Ser Model.SerCheckpoint Model.SerLits Model.SerStore
      Proofs.Ser Proofs.SerLoud Proofs.SerTop Proofs.SerReg Proofs.SerRefl Proofs.SerTotal
-     Proofs.SerLit Proofs.SerStore.
+     Proofs.SerLit Proofs.SerStore Model.SerCanon Proofs.SerCanon.
 Import ListNotations.
 
 (* 1. Round trip: whatever the encoder accepts comes back equivalent, with the identical
@@ -293,6 +293,13 @@ Theorem checkpoint_set_fails_loudly :
   forall (J JK : Type) (jenc : base -> lit -> res J) (kenc : base -> lit -> res JK) (reg : registry) s id cp e,
     marshal J JK jenc kenc fixed reg cp = Err e -> cp_set J JK jenc kenc reg s id cp = Err e.
 Proof. exact cp_set_err. Qed.
+
+(* 5d. The tie itself: the correspondence check compares the decoded value the implementation
+       returned with the model's by [val_equivb] (exact up to nil ~ empty container); what it
+       accepts as equal is equivalent in the sense of the property. *)
+Theorem tie_comparison_sound : forall a b, val_equivb a b = true -> a ≅ b.
+Proof. exact val_equivb_sound. Qed.
+Print Assumptions tie_comparison_sound.
 
 (* 6. Before the repairs the round trip was false ([rt_statement fx] is statement 4 for
       the code variant fx; it holds for [fixed]). *)
